@@ -225,8 +225,8 @@ Qed.
 Lemma frm_restructure X x dt : frm n el anyr (restructure t X x dt).
 Proof.
   unfold restructure. destruct (_ && _ && _ && _ && _); [|apply frm_ret; exact I].
-  destruct dt as [d|]; [|apply frm_raise]. destruct (n_st X) as [st|]; [|apply frm_raise].
-  destruct (negb _); [apply frm_raise|]. eapply frm_bind; [apply frm_lift|]. intros st' _. apply frm_set_st.
+  destruct dt as [d|]; [|apply frm_raise]. destruct (negb _); [apply frm_raise|].
+  destruct (n_st X) as [st|]; [|apply frm_raise]. eapply frm_bind; [apply frm_lift|]. intros st' _. apply frm_set_st.
 Qed.
 
 Lemma frm_set_datatype fuel : forall x dt, frm n el anyr (set_datatype t fuel x dt).
